@@ -1,10 +1,673 @@
-// Package c04 holds the runtime monitors for property C04 (see DESIGN.md section 4).
+// Package c04 holds the runtime monitor for property C04: control flow and
+// try/except/otherwise/finally follow the reference semantics (DESIGN.md
+// section 4). Generated programs (gen.go, over the AST of ast.go) are run by the
+// real interpreter of /repo and by an independent big-step reference
+// interpreter (ref.go); the ordered marker trace, the final value and the error
+// (type/detail/data, also as seen through `except ... as e`) are compared.
 package c04
 
-import "verif/harness/core"
+import (
+	"fmt"
+	"sort"
+	"strconv"
+	"strings"
+	"sync"
+	"sync/atomic"
+	"time"
+
+	"github.com/krotik/common/datautil"
+	"github.com/krotik/ecal/engine/pool"
+	"github.com/krotik/ecal/interpreter"
+	"github.com/krotik/ecal/parser"
+	"github.com/krotik/ecal/scope"
+	"github.com/krotik/ecal/stdlib"
+	"github.com/krotik/ecal/util"
+
+	"verif/harness/core"
+)
 
 func init() { core.Register("C04", Run) }
 
+// ---------------------------------------------------------------------------
+// the marker function c04.rec(id, args...) - registered once with
+// stdlib.AddStdlibFunc; the evaluation's thread id selects the recorder
+// ---------------------------------------------------------------------------
+
+type recorder struct {
+	trace   [][]string
+	calls   int
+	steps   int
+	runaway bool
+}
+
+// logical bounds on non-termination (never wall-clock): marker calls and AST
+// node visits of one evaluation. The largest generated program needs far less.
+const maxMarkerCalls = 20000
+const maxNodeVisits = 200000
+
+var maxStepsSeen int64
+
+type runaway struct{}
+
+var recorders sync.Map // tid -> *recorder
+var nextTid uint64 = 1000
+
+type recFunc struct{}
+
+func (recFunc) Run(instanceID string, vs parser.Scope, is map[string]interface{}, tid uint64, args []interface{}) (interface{}, error) {
+	v, ok := recorders.Load(tid)
+	if !ok {
+		panic("c04: marker call from an unknown evaluation")
+	}
+	r := v.(*recorder)
+	r.calls++
+	if r.calls > maxMarkerCalls {
+		// logical bound on non-termination: every generated block starts with a marker
+		r.runaway = true
+		panic(runaway{})
+	}
+	ent := make([]string, 0, len(args)+3)
+	for i, a := range args {
+		if i > 0 {
+			if m, isMap := a.(map[interface{}]interface{}); isMap {
+				if _, has := m["error"]; has {
+					// the error object bound by `except ... as e`
+					ent = append(ent, "err", canon(m["type"]), canon(m["detail"]), canon(m["data"]))
+					continue
+				}
+			}
+		}
+		ent = append(ent, canon(a))
+	}
+	r.trace = append(r.trace, ent)
+	return nil, nil
+}
+
+func (recFunc) DocString() (string, error) { return "records a marker of the C04 harness", nil }
+
+// stepGuard is attached as the provider's debugger only to count visited AST
+// nodes (util.ECALDebugger is the documented observation interface); it never
+// suspends, never returns an error and panics with runaway{} when the bound
+// is exceeded (a panic cannot be swallowed by an except clause of the program).
+type stepGuard struct{}
+
+func (stepGuard) VisitState(node *parser.ASTNode, vs parser.Scope, tid uint64) util.TraceableRuntimeError {
+	if v, ok := recorders.Load(tid); ok {
+		r := v.(*recorder)
+		r.steps++
+		if r.steps > maxNodeVisits {
+			r.runaway = true
+			panic(runaway{})
+		}
+	}
+	return nil
+}
+func (stepGuard) VisitStepInState(node *parser.ASTNode, vs parser.Scope, tid uint64) util.TraceableRuntimeError {
+	return nil
+}
+func (stepGuard) VisitStepOutState(node *parser.ASTNode, vs parser.Scope, tid uint64, soErr error) util.TraceableRuntimeError {
+	return nil
+}
+func (stepGuard) HandleInput(input string) (interface{}, error)                          { return nil, nil }
+func (stepGuard) StopThreads(d time.Duration) bool                                       { return false }
+func (stepGuard) BreakOnStart(flag bool)                                                 {}
+func (stepGuard) BreakOnError(flag bool)                                                 {}
+func (stepGuard) SetLockingState(m map[string]uint64, l *datautil.RingBuffer)            {}
+func (stepGuard) SetThreadPool(tp *pool.ThreadPool)                                      {}
+func (stepGuard) RecordThreadFinished(tid uint64)                                        {}
+func (stepGuard) SetBreakPoint(source string, line int)                                  {}
+func (stepGuard) DisableBreakPoint(source string, line int)                              {}
+func (stepGuard) RemoveBreakPoint(source string, line int)                               {}
+func (stepGuard) ExtractValue(threadID uint64, varName string, destVarName string) error { return nil }
+func (stepGuard) InjectValue(threadID uint64, varName string, expression string) error   { return nil }
+func (stepGuard) Continue(threadID uint64, contType util.ContType)                       {}
+func (stepGuard) Status() interface{}                                                    { return nil }
+func (stepGuard) Describe(threadID uint64) interface{}                                   { return nil }
+func (stepGuard) LockState() interface{}                                                 { return nil }
+
+// ---------------------------------------------------------------------------
+// running the real interpreter
+// ---------------------------------------------------------------------------
+
+func runReal(erp *interpreter.ECALRuntimeProvider, src string) outcome {
+	rec := &recorder{}
+	tid := atomic.AddUint64(&nextTid, 1)
+	recorders.Store(tid, rec)
+	defer recorders.Delete(tid)
+	var o outcome
+	key, msg, panicked := core.Guard(func() {
+		ast, err := parser.ParseWithRuntime("c04", src, erp)
+		if err != nil {
+			o.abnormal = "parse error: " + err.Error()
+			return
+		}
+		if err = ast.Runtime.Validate(); err != nil {
+			o.abnormal = "validation error: " + err.Error()
+			return
+		}
+		vs := scope.NewScope(scope.GlobalScope)
+		v, err := ast.Runtime.Eval(vs, make(map[string]interface{}), tid)
+		if err != nil {
+			o.hasErr = true
+			switch e := err.(type) {
+			case *util.RuntimeErrorWithDetail:
+				o.errType, o.errDetail, o.errData = canon(e.Type.Error()), canon(e.Detail), canon(e.Data)
+			case *util.RuntimeError:
+				o.errType, o.errDetail, o.errData = canon(e.Type.Error()), canon(e.Detail), canon(nil)
+			default:
+				o.errType, o.errDetail, o.errData = fmt.Sprintf("<%T>", err), canon(err.Error()), canon(nil)
+			}
+			return
+		}
+		o.value = canon(v)
+	})
+	o.trace = rec.trace
+	if int64(rec.steps) > maxStepsSeen {
+		maxStepsSeen = int64(rec.steps)
+	}
+	if rec.runaway {
+		o.trace = nil
+		o.abnormal = fmt.Sprintf("no termination within %d marker calls / %d AST node visits", maxMarkerCalls, maxNodeVisits)
+	} else if panicked {
+		o.abnormal = key + "\n" + msg
+	}
+	return o
+}
+
+// ---------------------------------------------------------------------------
+// comparison
+// ---------------------------------------------------------------------------
+
+func eqField(ref, real string) bool { return ref == wild || ref == real }
+
+// diffOutcome returns "" when the real outcome is one the reference allows,
+// else a category and a description of the first difference.
+func diffOutcome(ref, real outcome) (string, string) {
+	if real.abnormal != "" {
+		cat := "abnormal"
+		switch {
+		case strings.HasPrefix(real.abnormal, "parse error"):
+			cat = "parse-error"
+		case strings.HasPrefix(real.abnormal, "validation error"):
+			cat = "validation-error"
+		case strings.HasPrefix(real.abnormal, "no termination"):
+			cat = "nontermination"
+		case strings.HasPrefix(real.abnormal, "panic:"):
+			cat = "panic"
+		}
+		return cat, real.abnormal
+	}
+	n := len(ref.trace)
+	if len(real.trace) < n {
+		n = len(real.trace)
+	}
+	for i := 0; i < n; i++ {
+		a, b := ref.trace[i], real.trace[i]
+		same := len(a) == len(b)
+		for k := 0; same && k < len(a); k++ {
+			same = eqField(a[k], b[k])
+		}
+		if !same {
+			cat := "trace-order"
+			if a[0] == b[0] {
+				cat = "marker-values"
+			}
+			return cat, fmt.Sprintf("marker call %d: reference rec(%s), real rec(%s)", i, strings.Join(a, ", "), strings.Join(b, ", "))
+		}
+	}
+	if len(ref.trace) != len(real.trace) {
+		if len(real.trace) > n {
+			return "trace-extra", fmt.Sprintf("real run continues with rec(%s) after the reference trace ended (%d calls)", strings.Join(real.trace[n], ", "), n)
+		}
+		return "trace-missing", fmt.Sprintf("real run ends after %d marker calls, reference continues with rec(%s)", n, strings.Join(ref.trace[n], ", "))
+	}
+	if ref.hasErr != real.hasErr {
+		if real.hasErr {
+			return "unexpected-error", fmt.Sprintf("Eval returned error type=%s detail=%s, reference completes normally with value %s", real.errType, real.errDetail, ref.value)
+		}
+		return "missing-error", fmt.Sprintf("Eval returned value %s, reference ends with error type=%s detail=%s data=%s", real.value, ref.errType, ref.errDetail, ref.errData)
+	}
+	if ref.hasErr {
+		if !eqField(ref.errType, real.errType) || !eqField(ref.errDetail, real.errDetail) || !eqField(ref.errData, real.errData) {
+			return "error-fields", fmt.Sprintf("Eval error type=%s detail=%s data=%s, reference type=%s detail=%s data=%s",
+				real.errType, real.errDetail, real.errData, ref.errType, ref.errDetail, ref.errData)
+		}
+		return "", ""
+	}
+	if !eqField(ref.value, real.value) {
+		return "final-value", fmt.Sprintf("Eval returned %s, reference %s", real.value, ref.value)
+	}
+	return "", ""
+}
+
+// verdict of one program
+type verdict struct {
+	ok       bool
+	devs     []string // known deviations that explain the real outcome (sorted)
+	category string   // for an unexplained difference
+	first    string   // description of the first difference from the true reference
+	real     outcome
+	ref      outcome
+	devRef   *outcome
+}
+
+func (v verdict) sig() string {
+	if v.ok {
+		return "ok"
+	}
+	if len(v.devs) > 0 {
+		return "dev:" + strings.Join(v.devs, ",")
+	}
+	if v.real.abnormal != "" {
+		// parse error / panic / non-termination: shrinking stays within the class
+		return "diff:" + v.category
+	}
+	return "diff"
+}
+
+func judge(erp *interpreter.ECALRuntimeProvider, p *prog, evOut map[string]int) verdict {
+	src := p.source()
+	real := runReal(erp, src)
+	ref, _, events := runRef(p, nil)
+	if evOut != nil {
+		for k, n := range events {
+			evOut[k] += n
+		}
+	}
+	v := verdict{real: real, ref: ref}
+	cat, first := diffOutcome(ref, real)
+	if cat == "" {
+		v.ok = true
+		return v
+	}
+	v.category, v.first = cat, first
+	if real.abnormal != "" {
+		return v
+	}
+	// explain by known deviations: smallest subset of switches under which the
+	// reference reproduces the real outcome exactly
+	n := len(allDevs)
+	masks := make([]int, 0, 1<<n)
+	for m := 1; m < 1<<n; m++ {
+		masks = append(masks, m)
+	}
+	sort.SliceStable(masks, func(i, j int) bool { return popcount(masks[i]) < popcount(masks[j]) })
+	for _, m := range masks {
+		dev := map[string]bool{}
+		for i, d := range allDevs {
+			if m&(1<<i) != 0 {
+				dev[d] = true
+			}
+		}
+		dref, fired, _ := runRef(p, dev)
+		if len(fired) != len(dev) {
+			continue // a switch that did not influence the run: covered by a smaller subset
+		}
+		if c, _ := diffOutcome(dref, real); c == "" {
+			for d := range fired {
+				v.devs = append(v.devs, d)
+			}
+			sort.Strings(v.devs)
+			v.devRef = &dref
+			return v
+		}
+	}
+	return v
+}
+
+func popcount(m int) int {
+	n := 0
+	for ; m != 0; m &= m - 1 {
+		n++
+	}
+	return n
+}
+
+// ---------------------------------------------------------------------------
+// shrinking along the generator's own structure
+// ---------------------------------------------------------------------------
+
+// reductions returns all programs that are one step smaller than p.
+func reductions(p *prog) []*prog {
+	var out []*prog
+	// addressing: the k-th block in pre-order of the clone
+	var blocks func(b *[]stmt, acc *[]*[]stmt)
+	blocks = func(b *[]stmt, acc *[]*[]stmt) {
+		*acc = append(*acc, b)
+		for _, s := range *b {
+			for _, cb := range childBlocks(s) {
+				blocks(cb, acc)
+			}
+		}
+	}
+	var orig []*[]stmt
+	blocks(&p.body, &orig)
+	for bi := range orig {
+		for si := range *orig[bi] {
+			// (a) delete statement si of block bi
+			{
+				q := p.clone()
+				var bl []*[]stmt
+				blocks(&q.body, &bl)
+				b := bl[bi]
+				*b = append(append([]stmt(nil), (*b)[:si]...), (*b)[si+1:]...)
+				out = append(out, q)
+			}
+			s := (*orig[bi])[si]
+			// (b) replace a compound statement by one of its blocks
+			for ci := range childBlocks(s) {
+				q := p.clone()
+				var bl []*[]stmt
+				blocks(&q.body, &bl)
+				b := bl[bi]
+				inner := *childBlocks((*b)[si])[ci]
+				nb := append([]stmt(nil), (*b)[:si]...)
+				nb = append(nb, inner...)
+				nb = append(nb, (*b)[si+1:]...)
+				*b = nb
+				out = append(out, q)
+			}
+			// (c) drop clauses of a try / branches of an if
+			switch x := s.(type) {
+			case *sTry:
+				for ei := range x.excepts {
+					q := p.clone()
+					var bl []*[]stmt
+					blocks(&q.body, &bl)
+					t := (*bl[bi])[si].(*sTry)
+					t.excepts = append(append([]*exc(nil), t.excepts[:ei]...), t.excepts[ei+1:]...)
+					out = append(out, q)
+				}
+				if x.hasOtherwise {
+					q := p.clone()
+					var bl []*[]stmt
+					blocks(&q.body, &bl)
+					t := (*bl[bi])[si].(*sTry)
+					t.hasOtherwise, t.otherwise = false, nil
+					out = append(out, q)
+				}
+				if x.hasFinally {
+					q := p.clone()
+					var bl []*[]stmt
+					blocks(&q.body, &bl)
+					t := (*bl[bi])[si].(*sTry)
+					t.hasFinally, t.finally = false, nil
+					out = append(out, q)
+				}
+			case *sIf:
+				if x.hasElse {
+					q := p.clone()
+					var bl []*[]stmt
+					blocks(&q.body, &bl)
+					t := (*bl[bi])[si].(*sIf)
+					t.hasElse, t.els = false, nil
+					out = append(out, q)
+				}
+				if len(x.guards) > 1 {
+					for gi := range x.guards {
+						q := p.clone()
+						var bl []*[]stmt
+						blocks(&q.body, &bl)
+						t := (*bl[bi])[si].(*sIf)
+						t.guards = append(append([]expr(nil), t.guards[:gi]...), t.guards[gi+1:]...)
+						t.blocks = append(append([][]stmt(nil), t.blocks[:gi]...), t.blocks[gi+1:]...)
+						out = append(out, q)
+					}
+				}
+			case *sMark:
+				if len(x.args) > 0 {
+					q := p.clone()
+					var bl []*[]stmt
+					blocks(&q.body, &bl)
+					(*bl[bi])[si].(*sMark).args = nil
+					out = append(out, q)
+				}
+			}
+		}
+	}
+	return out
+}
+
+func nonEmptyBlocks(p *prog) bool {
+	ok := true
+	var walk func(b []stmt)
+	walk = func(b []stmt) {
+		if len(b) == 0 {
+			ok = false
+		}
+		for _, s := range b {
+			for _, cb := range childBlocks(s) {
+				walk(*cb)
+			}
+		}
+	}
+	for _, s := range p.body {
+		for _, cb := range childBlocks(s) {
+			walk(*cb)
+		}
+	}
+	return ok
+}
+
+// shrink minimises p while the verdict signature stays the same.
+func shrink(erp *interpreter.ECALRuntimeProvider, p *prog, sig string, budget int) (*prog, verdict) {
+	cur := p
+	curV := judge(erp, cur, nil)
+	for progress := true; progress && budget > 0; {
+		progress = false
+		for _, q := range reductions(cur) {
+			if !q.valid() || !nonEmptyBlocks(q) {
+				continue
+			}
+			budget--
+			if budget <= 0 {
+				break
+			}
+			v := judge(erp, q, nil)
+			if v.sig() == sig {
+				cur, curV = q, v
+				progress = true
+				break
+			}
+		}
+	}
+	return cur, curV
+}
+
+// ---------------------------------------------------------------------------
+// the check
+// ---------------------------------------------------------------------------
+
+type runner struct {
+	c        *core.Ctx
+	erp      *interpreter.ECALRuntimeProvider
+	events   map[string]int
+	reported map[string]int // finding key -> records written by this batch
+}
+
+const maxReportsPerKey = 3
+
+func traceText(t [][]string) string {
+	parts := make([]string, len(t))
+	for i, e := range t {
+		parts[i] = "(" + strings.Join(e, " ") + ")"
+	}
+	s := strings.Join(parts, " ")
+	if len(s) > 1500 {
+		s = s[:1500] + " …"
+	}
+	return s
+}
+
+func outcomeText(o outcome) map[string]interface{} {
+	m := map[string]interface{}{"trace": traceText(o.trace)}
+	if o.abnormal != "" {
+		a := o.abnormal
+		if len(a) > 1500 {
+			a = a[:1500]
+		}
+		m["abnormal"] = a
+	} else if o.hasErr {
+		m["error"] = map[string]string{"type": o.errType, "detail": o.errDetail, "data": o.errData}
+	} else {
+		m["value"] = o.value
+	}
+	return m
+}
+
+func (r *runner) one(stream string, idx int, p *prog) {
+	c := r.c
+	src := p.source()
+	c.Begin(0, stream, idx, src)
+	v := judge(r.erp, p, r.events)
+	c.End(0)
+	r.events["real.marker-calls"] += len(v.real.trace)
+	if v.real.hasErr {
+		r.events["real.eval.error"]++
+	} else if v.real.abnormal == "" {
+		r.events["real.eval.value"]++
+	}
+	// non-trivial: the reference run left at least one block abruptly or
+	// dispatched a handler / otherwise / finally or iterated a loop
+	if len(v.ref.trace) > 2 || v.ref.hasErr {
+		c.Nontrivial(core.Hash64(src))
+	}
+	if idx%9973 == 11 {
+		c.Sample(stream, map[string]interface{}{"source": src, "reference": outcomeText(v.ref), "real": outcomeText(v.real), "verdict": v.sig()})
+	}
+	if v.ok {
+		r.events["verdict.agree"]++
+		return
+	}
+	sig := v.sig()
+	r.events["verdict."+sig]++
+	// report budget per finding key and batch: the first few cases are shrunk and
+	// written out, the rest is only counted (events)
+	firstKey := "diff:" + v.category
+	if len(v.devs) > 0 {
+		firstKey = "dev:" + v.devs[0]
+	}
+	if r.reported[firstKey] >= maxReportsPerKey && !c.Replay() {
+		r.events["unreported-repeat."+firstKey]++
+		return
+	}
+	if v.category == "nontermination" && r.reported[firstKey] >= 1 && !c.Replay() {
+		r.events["unreported-repeat."+firstKey]++
+		return
+	}
+	r.reported[firstKey]++
+	min, mv := p, v
+	switch {
+	case v.category == "nontermination":
+		min, mv = shrink(r.erp, p, sig, 200) // every attempt may cost the full node budget
+	case v.real.abnormal == "" || v.category == "panic":
+		min, mv = shrink(r.erp, p, sig, 3000)
+	}
+	detail := map[string]interface{}{
+		"source":           src,
+		"minimal_source":   min.source(),
+		"minimal_features": min.featureKey(),
+		"first_difference": mv.first,
+		"real":             outcomeText(mv.real),
+		"reference":        outcomeText(mv.ref),
+	}
+	if len(v.devs) > 0 {
+		detail["explained_by_deviation_switches"] = v.devs
+		if mv.devRef != nil {
+			detail["reference_with_deviations"] = outcomeText(*mv.devRef)
+		}
+		for _, d := range v.devs {
+			c.Violation("dev:"+d, "known deviation "+d+": "+mv.first, stream, idx, detail)
+		}
+		return
+	}
+	key := "diff:" + mv.category
+	if mv.category == "panic" {
+		key = strings.SplitN(mv.real.abnormal, "\n", 2)[0]
+	} else if mv.real.abnormal == "" {
+		key += ":" + min.featureKey()
+	}
+	c.Violation(key, "real interpreter differs from the reference semantics ("+mv.category+"): "+mv.first, stream, idx, detail)
+}
+
 // Run is the check.
 func Run(c *core.Ctx) {
+	c.Note("rule", "programs over the harness' own AST: blocks of marker; item; marker where item is nothing, an exit "+
+		"(raise A/B with data, runtime error, break/continue inside a loop, return inside a function, each also conditional on "+
+		"one iteration of the innermost loop) or a construct (if/elif/else in 5-7 guard layouts, guard loop, range loop over "+
+		"5 argument forms incl. negative step, equal ends and one argument, list loop incl. destructuring and empty list, map loop "+
+		"as [k,v] and as one variable, function definition + call, try with 11 handler shapes (none, bare, `except e`, single "+
+		"type without as, single type as e, several types with/without as, typed+bare in both orders, two typed clauses, a "+
+		"runtime error type) x otherwise x finally, the first handler and the otherwise block ending in nothing / raise / "+
+		"break / continue / return). Stream exh2: every program of construct nesting depth <= 2 (complete enumeration of the "+
+		"choice tree). Stream exh3 (quick) / exh3w (thorough): every program of depth <= 3 over reduced menus (guard loop, list loop, "+
+		"function, try with 5 (exh3) or all 11 (exh3w) handler shapes x otherwise x finally; exits raise A, break, continue, return, "+
+		"conditional break/continue/return). Stream rnd3/rnd4: seeded random programs of depth 3/4 with wider menus (more range forms, comparison "+
+		"operators, handler shapes, data values, two items per block, constructs inside handlers and finally). Exclusions: "+
+		"guards are boolean expressions; no abrupt completion inside finally; break/continue only inside a loop of the same "+
+		"function; return only inside a function; the value of a function that ends without return and the detail text of "+
+		"runtime errors are not compared. Non-trivial = distinct source text whose reference run records more than the two "+
+		"top-level markers or ends in an error.")
+	c.Note("exhaustive", "true")
+	c.Note("oracle", "ordered trace of c04.rec(id, values...) calls (Go function registered with stdlib.AddStdlibFunc; error objects "+
+		"bound by except are reduced to type/detail/data), value or error (type/detail/data) of Runtime.Eval; known deviations "+
+		"are switches of the reference: "+strings.Join(allDevs, ", "))
+
+	stdlib.AddStdlibPkg("c04", "marker functions of the C04 harness")
+	if err := stdlib.AddStdlibFunc("c04", "rec", recFunc{}); err != nil {
+		panic(err)
+	}
+	// one provider for all cases of the batch; Cron.Stop can block on the cron
+	// goroutine's tick (krotik/common), so it is never waited for
+	erp := interpreter.NewECALRuntimeProvider("c04", nil, nil)
+	defer func() { go erp.Cron.Stop() }()
+	erp.Debugger = stepGuard{}
+	r := &runner{c: c, erp: erp, events: map[string]int{}, reported: map[string]int{}}
+	defer func() {
+		for k, n := range r.events {
+			c.Event(k, int64(n))
+		}
+		if c.Batch == 0 {
+			c.Note("max_ast_node_visits_of_one_program_in_batch0", strconv.FormatInt(maxStepsSeen, 10))
+		}
+	}()
+
+	// exhaustive: all programs of depth <= 2 (full menus), and all programs of
+	// depth <= 3 over reduced menus (thorough: with all handler shapes)
+	for _, es := range []struct {
+		stream string
+		mode   int
+		depth  int
+	}{{"exh2", mExh2, 2}, {[]string{"exh3", "exh3w"}[c.Pick(0, 1)], c.Pick(mExh3, mExh3Wide), 3}} {
+		o := &odometer{}
+		idx := 0
+		for {
+			o.pos = 0
+			p := genProgram(o, es.mode, es.depth)
+			if c.Take(es.stream, idx) {
+				r.one(es.stream, idx, p)
+			}
+			idx++
+			if !o.next() {
+				break
+			}
+		}
+		if c.Batch == 0 {
+			c.Note("exhaustive_programs_"+es.stream, strconv.Itoa(idx))
+		}
+	}
+	// random: depth 3 and 4
+	for _, rs := range []struct {
+		stream string
+		depth  int
+		n      int
+	}{{"rnd3", 3, c.Pick(20000, 500000)}, {"rnd4", 4, c.Pick(2000, 50000)}} {
+		for i := 0; i < rs.n; i++ {
+			if !c.Take(rs.stream, i) {
+				continue
+			}
+			p := genProgram(rndChooser{c.Rng(rs.stream, i)}, mRnd, rs.depth)
+			r.one(rs.stream, i, p)
+		}
+	}
 }
